@@ -26,6 +26,16 @@ REQUIRED_REACH = ['Lattice.py:hexSortSides', 'Lattice.py:hexVertices',
 _PER = {'quick': 14, 'thorough': 700}
 
 
+def attach_monitors():
+    from .. import monitors
+    monitors.attach_contracts()
+
+
+def monitor_counts():
+    from .. import monitors
+    return dict(monitors.COUNTS)
+
+
 def plan(tier):
     return [(fam, _PER[tier]) for fam in gen_lat.HEX_FAMILIES]
 
